@@ -79,13 +79,14 @@ def block_string(rng, maxlines=4):
 
 
 class SrcGen:
-    def __init__(self, rng, frag_args=False, dir_on_dir=False, hostile=0.4, max_depth=3, keywords=0.1):
+    def __init__(self, rng, frag_args=False, dir_on_dir=False, hostile=0.4, max_depth=3, keywords=0.1, names=None):
         self.r = rng
         self.frag_args = frag_args
         self.dir_on_dir = dir_on_dir
         self.hostile = hostile
         self.max_depth = max_depth
         self.kw = keywords
+        self.names = names or NAMES
         self.out = []
 
     # ---- lexeme helpers
@@ -95,7 +96,7 @@ class SrcGen:
     def name(self, exclude=()):
         r = self.r
         for _ in range(10):
-            n = r.choice(KEYWORDS) if r.random() < self.kw else r.choice(NAMES)
+            n = r.choice(KEYWORDS) if r.random() < self.kw else r.choice(self.names)
             if n not in exclude:
                 return n
         return 'n0'
